@@ -97,7 +97,38 @@ def integrands(dims):
             return 0 if tot < 0.1 else float(np.exp(-tot) + 0.5)
         return np.where(tot < 0.1, 0, np.exp(-tot) + 0.5)
 
-    return {"separable": separable, "coupled": coupled, "first": first, "ramp": ramp, "intvals": intvals, "cutoff": cutoff}
+    def pointonly(*args):
+        # an integrand written for ONE node per domain (a scalar product, a Python conditional): legal on the point-by-point
+        # route only, where it must really be called with single nodes -- also for a single domain (seeded change C18-K)
+        tot = 0.0
+        for k, (a, is3) in enumerate(zip(args, dims)):
+            a = np.asarray(a, dtype=float)
+            if a.shape != ((3,) if is3 else ()):
+                raise ValueError(f"point-by-point integrand called with an array of shape {a.shape} for domain {k}")
+            v = float(np.dot(a, a)) if is3 else float(a)
+            tot += (v if v > 0.25 else 0.0) * (k + 1)
+        return tot
+
+    def last(*args):
+        # returns (a view of) its last ARGUMENT: on the vectorised route that is the last grid's own node array; the values
+        # handed back must not be scaled in place (seeded change C18-L)
+        a = args[-1]
+        return a[..., 0] if dims[-1] else a
+
+    table_cache = {}
+
+    def table(*args):
+        # a table of values the caller computed once and hands back on every call (the same array object each time)
+        a = np.asarray(args[-1], dtype=float)
+        if a.ndim == (1 if dims[-1] else 0):
+            return float(np.cos(_s(a, dims[-1])) + 1.5)
+        key = a.shape
+        if key not in table_cache:
+            table_cache[key] = np.cos(_s(a, dims[-1])) + 1.5
+        return table_cache[key]
+
+    return {"separable": separable, "coupled": coupled, "first": first, "ramp": ramp, "intvals": intvals, "cutoff": cutoff,
+            "pointonly": pointonly, "last": last, "table": table}
 
 
 def reference(grids, f):
@@ -172,6 +203,7 @@ def _config(arg):
     if total >= 2:
         res.nontrivial()
     # ---- integrals
+    snap_grids = [(np.array(g.points, copy=True), np.array(g.weights, copy=True)) for g in grids]
     fs = integrands(dims)
     for fname, f in fs.items():
         ref, scale = reference(grids, f)
@@ -186,6 +218,8 @@ def _config(arg):
         routes = [("vectorised", dict(non_vectorized=False))]
         routes += [("pointwise-default", dict(non_vectorized=True))]
         routes += [(f"pointwise-chunk={c}", dict(non_vectorized=True, integration_chunk_size=c)) for c in range(1, total + 2)]
+        if fname == "pointonly":
+            routes = routes[1:]
         for rname, kw in routes:
             res.count()
             c2 = dict(case, integrand=fname, route=rname)
@@ -201,6 +235,11 @@ def _config(arg):
                 res.violation(f"{tag}:{rname.split('=')[0]}:differs-from-nested-sum",
                               f"integrate({fname}, {rname}) = {got!r}; nested sum over the product set = {ref!r} "
                               f"(sizes {list(sizes)}, {pattern})", c2, got=got, expected=ref)
+    for g, (p0, w0) in zip(grids, snap_grids):
+        if not (np.array_equal(g.points, p0) and np.array_equal(g.weights, w0)):
+            res.violation(f"{tag}:grid-modified-by-integrate", "a grid's nodes or weights changed while integrating (an integrand handed its "
+                          "argument back)", case)
+            break
     res.sample(case)
     return res.as_dict()
 
